@@ -17,6 +17,9 @@ MERGE_ITERS = ['petl.transform.joins:iterjoin', 'petl.transform.joins:iterantijo
 
 def run(ctx):
     rep = ctx.report
+    from ..typestate import check_functions as _rowbuffers
+    rep.rule('R6.7', 'output rows are assembled in a container that is created anew (or emptied) between two deliveries: no cell of one output row is carried into the next (row-buffer typestate)')
+    ctx.floor('row_buffer_generators', _rowbuffers(ctx, rep, 'R6.7', ctx.functions(['petl.transform.joins'])), 5)
     rep.explanation = (
         'Decides necessary structural conditions of the sort-merge joins: (R6.1) each input is squared up (stack) where '
         'the operator pads, and sorted by exactly the key the merge compares (left by lkey, right by rkey) unless '
